@@ -1,16 +1,742 @@
-import SSV.Model.Config
+import SSV.Proofs.Config
 /-
-C18 — property theorems (placeholder while the machinery is brought up; replaced below).
+C18 — Configurations are either rejected at load or run without invariant violations.
+
+Model: SSV.Model.Config (`validate` = service.Config.Manager on the modelled fields; every number,
+table and the presence of the load-time checks for F4 / F15 / F20 comes from SSV.Gen.C18, i.e. from
+the source as it is now).  The documented side (README.md, field comments, the property statement)
+is the `Doc` namespace below: literal constants, independent of Gen.
+
+  accepted_sound     validate c = ok e  ->  every invariant the statement names holds
+  violating_rejected the converse, per invariant: a configuration violating one is refused
+  defaults           omitted ≡ "" ≡ the documented default (policies, NAT timeout, batch sizes, capacity,
+                     filter size), for single validators and for whole configurations
+  legacy_equiv       legacy single-listener fields ≡ the listener arrays Config.Migrate produces
+  no_crash_configs   accepted => the preconditions of the packet-level no-panic theorems:
+                     target-only direct servers have an IP tunnel address; 1 ≤ filter size, size+63 < 2^63
+
+"No accepted combination leads to a crash once traffic flows" is decided PARTIALLY: the theorem gives
+the two preconditions under which C04/C05/C06 prove the packet paths panic-free; the behaviour of
+started services is only sampled (smoke engine of corr_c18).
 -/
 namespace SSV.C18
-open SSV.Config
+open SSV.Config SSV.Gen
 
-theorem effFilterSize_pos (n : Nat) : 1 ≤ effFilterSize n := by
+-- ---------------------------------------------------------------- the documented side
+
+namespace Doc
+/-- "the MTU is at least 1280" -/
+def minMTU : Int := 1280
+/-- "Shadowsocks 2022 NAT timeouts are no shorter than the replay window" (60 s, in ns) -/
+def replayWindow : Int := 60000000000
+/-- README / field comments: batch sizes 1..1024 (0 = default), capacity >= 64 (0 = default) -/
+def maxBatch : Int := 1024
+def minCapacity : Int := 64
+/-- "The default value is 5 minutes." / 256 / 64 / 1024 / 256 -/
+def natTimeout : Int := 300000000000
+def relayBatch : Int := 256
+def recvBatch : Int := 64
+def sendCapacity : Int := 1024
+def filterSize : Nat := 256
+/-- README "Security": `ForceReset` (default), `PadPlainDNS` (default) -/
+def rejectPolicy : String := "ForceReset"
+def paddingPolicy : String := "PadPlainDNS"
+/-- "key lengths match the method" -/
+def keyLen : Proto → Option Nat
+  | .ss128 => some 16
+  | .ss256 => some 32
+  | _ => none
+end Doc
+
+-- ---------------------------------------------------------------- Gen side conditions (re-checked on every run)
+
+theorem gen_pskLen (p : Proto) : pskLenFor p = Doc.keyLen p := by
+  cases p <;> decide
+
+theorem gen_mtu : (C18.serverMTUMin : Int) = Doc.minMTU ∧ (C18.clientMTUMin : Int) = Doc.minMTU := by decide
+
+theorem gen_nat : (C18.ss2022MinNATTimeout : Int) = Doc.replayWindow ∧ (C18.natTimeoutDefault : Int) = Doc.natTimeout ∧
+    C18.natTimeoutRejectsEqual = false := by decide
+
+theorem gen_perf : (C18.relayBatchMax : Int) = Doc.maxBatch ∧ (C18.recvBatchMax : Int) = Doc.maxBatch ∧
+    (C18.sendCapMin : Int) = Doc.minCapacity ∧ (C18.relayBatchDefault : Int) = Doc.relayBatch ∧
+    (C18.recvBatchDefault : Int) = Doc.recvBatch ∧ (C18.sendCapDefault : Int) = Doc.sendCapacity := by decide
+
+/-- F12: the nil branch of `Policy()` and the text "" both give the documented default -/
+theorem gen_policy_defaults :
+    rejectOf none = some Doc.rejectPolicy ∧ rejectOf (some "") = some Doc.rejectPolicy ∧
+    rejectOf (some Doc.rejectPolicy) = some Doc.rejectPolicy ∧
+    paddingOf none = some Doc.paddingPolicy ∧ paddingOf (some "") = some Doc.paddingPolicy ∧
+    paddingOf (some Doc.paddingPolicy) = some Doc.paddingPolicy := by decide
+
+theorem gen_filter_default : C18.DefaultSlidingWindowFilterSize = Doc.filterSize := by decide
+
+/-- F15: the filter size is validated at load, with a bound far below the overflow of the ring computation -/
+theorem gen_filter_bound :
+    (∃ m, C18.serverFilterSizeMax = some m ∧ m + 63 < 2 ^ 63) ∧ (∃ m, C18.clientFilterSizeMax = some m ∧ m + 63 < 2 ^ 63) :=
+  ⟨⟨_, rfl, by decide⟩, ⟨_, rfl, by decide⟩⟩
+
+/-- F4 / F20: the load-time checks exist -/
+theorem gen_checks_present :
+    C18.directTargetOnlyRequiresIP = true ∧ C18.domainSetNamesUnique = true ∧ C18.prefixSetNamesUnique = true := by decide
+
+-- ---------------------------------------------------------------- invariants
+
+/-- the invariants of one accepted UDP listener -/
+structure ULInv (minNat : Int) (e : EffUL) : Prop where
+  relay : 1 ≤ e.relayBatch ∧ e.relayBatch ≤ Doc.maxBatch
+  recv : 1 ≤ e.recvBatch ∧ e.recvBatch ≤ Doc.maxBatch
+  cap : Doc.minCapacity ≤ e.sendCap
+  nat : minNat ≤ Doc.replayWindow → minNat ≤ e.natTimeout
+
+theorem ul_sound {minNat : Int} {l : UL} {e : EffUL} (h : checkUL minNat l = .ok e) : ULInv minNat e := by
+  have ok := checkUL_ok h
+  obtain ⟨g1, g2, g3, g4, g5, g6⟩ := gen_perf
+  obtain ⟨n1, n2, n3⟩ := gen_nat
+  refine ⟨?_, ?_, ?_, ?_⟩
+  · rcases rangeDefault_some ok.relay with ⟨a, b, c⟩ | ⟨_, c⟩
+    · rw [g1] at b; rw [c]; exact ⟨by omega, b⟩
+    · rw [c, g4]; decide
+  · rcases rangeDefault_some ok.recv with ⟨a, b, c⟩ | ⟨_, c⟩
+    · rw [g2] at b; rw [c]; exact ⟨by omega, b⟩
+    · rw [c, g5]; decide
+  · rcases capDefault_some ok.cap with ⟨a, c⟩ | ⟨_, c⟩
+    · rw [g3] at a; rw [c]; exact a
+    · rw [c, g6]; decide
+  · intro hm
+    rcases ok.nat with ⟨_, c⟩ | ⟨_, b, c⟩
+    · rw [c, n2]
+      have : Doc.replayWindow ≤ Doc.natTimeout := by decide
+      omega
+    · rw [c]
+      unfold natTooSmall at b
+      rw [n3] at b
+      simpa using b
+
+/-- the invariants the statement names, for one server -/
+structure ServerInv (s : Server) (e : EffServer) : Prop where
+  /-- key lengths match the method (PSK / iPSK and the uPSK store) -/
+  psk : s.proto.isSS = true → Doc.keyLen s.proto = some s.pskLen
+  upsk : s.proto.isSS = true → s.upsk ≠ .missing ∧ ∀ l, s.upsk = .keys l → Doc.keyLen s.proto = some l
+  /-- the MTU is at least 1280 when UDP is served -/
+  mtu : s.allUDP ≠ [] → Doc.minMTU ≤ s.mtu
+  /-- ss2022 NAT timeouts are no shorter than the replay window -/
+  nat : s.proto.isSS = true → ∀ u ∈ e.udp, Doc.replayWindow ≤ u.natTimeout
+  /-- the documented ranges of the tuning knobs -/
+  perf : ∀ u ∈ e.udp, 1 ≤ u.relayBatch ∧ u.relayBatch ≤ Doc.maxBatch ∧ 1 ≤ u.recvBatch ∧ u.recvBatch ≤ Doc.maxBatch ∧
+    Doc.minCapacity ≤ u.sendCap
+  /-- every configured listener (array or legacy) was built -/
+  listeners : e.udp.length = s.allUDP.length ∧ e.tcp = s.allTCP.length
+  /-- a direct server has its tunnel address -/
+  tunnel : s.proto = .direct → s.tunnel ≠ .absent
+
+theorem isSS_minNat {p : Proto} (h : p.isSS = true) : minNatOf p = Doc.replayWindow := by
+  unfold minNatOf
+  rw [if_pos h]
+  exact gen_nat.1
+
+theorem pskOK_keyLen {p : Proto} {n : Nat} {l : List Nat} (h : pskOK p n l = true) :
+    Doc.keyLen p = some n ∧ ∀ k ∈ l, Doc.keyLen p = some k := by
+  unfold pskOK at h
+  rw [gen_pskLen] at h
+  split at h
+  · cases h
+  · rename_i m hm
+    simp only [Bool.and_eq_true, decide_eq_true_eq, List.all_eq_true] at h
+    refine ⟨by rw [hm, h.1], fun k hk => ?_⟩
+    rw [hm, h.2 k hk]
+
+theorem server_sound {s : Server} {e : EffServer} (h : checkServer s = .ok e) : ServerInv s e := by
+  have ok := checkServer_ok h
+  have i3 := ok.init (s.proto.isSS && !pskOK s.proto s.pskLen [], "server-psk") (by simp [Server.initChecks])
+  have i1 := ok.init (s.proto = .direct && !s.tunnel.valid, "server-tunnel") (by simp [Server.initChecks])
+  have u1 := ok.udpc (!s.allUDP.isEmpty && decide (s.mtu < (C18.serverMTUMin : Int)), "server-mtu") (by simp [Server.udpChecks])
+  have hup := ok.upsk
+  refine ⟨?_, ?_, ?_, ?_, ?_, ?_, ?_⟩
+  · intro hs
+    simp only [hs, Bool.true_and, Bool.not_eq_false'] at i3
+    exact (pskOK_keyLen i3).1
+  · intro hs
+    simp only [hs, Bool.true_and, Bool.not_eq_false'] at hup
+    unfold upskOK at hup
+    refine ⟨?_, ?_⟩
+    · intro hm
+      rw [hm] at hup
+      cases hup
+    · intro l hl
+      rw [hl] at hup
+      simp only [decide_eq_true_eq] at hup
+      rw [← gen_pskLen]
+      exact hup
+  · intro hne
+    have : s.allUDP.isEmpty = false := by
+      cases hl : s.allUDP with
+      | nil => exact absurd hl hne
+      | cons a as => rfl
+    simp only [this, Bool.not_false, Bool.true_and, decide_eq_false_iff_not] at u1
+    rw [gen_mtu.1] at u1
+    omega
+  · intro hs u hu
+    obtain ⟨l, _, hl⟩ := mapE_ok_mem' ok.udp u hu
+    have inv := ul_sound hl
+    rw [isSS_minNat hs] at inv
+    exact inv.nat (Int.le_refl _)
+  · intro u hu
+    obtain ⟨l, _, hl⟩ := mapE_ok_mem' ok.udp u hu
+    have inv := ul_sound hl
+    exact ⟨inv.relay.1, inv.relay.2, inv.recv.1, inv.recv.2, inv.cap⟩
+  · refine ⟨mapE_length ok.udp, ?_⟩
+    rw [ok.eff]
+    rfl
+  · intro hd ha
+    rw [ha] at i1
+    simp [hd, Addr.valid] at i1
+
+/-- the invariants the statement names, for one client -/
+structure ClientInv (k : Client) : Prop where
+  psk : k.proto.isSS = true → Doc.keyLen k.proto = some k.pskLen ∧ ∀ n ∈ k.ipskLens, Doc.keyLen k.proto = some n
+  mtu : k.enableUDP = true → Doc.minMTU ≤ k.mtu
+
+theorem client_sound {k : Client} {e : EffClient} (h : checkClient k = .ok e) : ClientInv k := by
+  have ⟨ok, _⟩ := checkClient_ok h
+  have i1 := ok (k.proto.isSS && !pskOK k.proto k.pskLen k.ipskLens, "client-psk") (by simp [Client.checks])
+  have i2 := ok (k.enableUDP && decide (k.mtu < (C18.clientMTUMin : Int)), "client-mtu") (by simp [Client.checks])
+  refine ⟨?_, ?_⟩
+  · intro hs
+    simp only [hs, Bool.true_and, Bool.not_eq_false'] at i1
+    exact pskOK_keyLen i1
+  · intro hu
+    simp only [hu, Bool.true_and, decide_eq_false_iff_not] at i2
+    rw [gen_mtu.2] at i2
+    omega
+
+-- ---------------------------------------------------------------- inversion of `validate`
+
+structure Accepted (c : Config) (e : Eff) : Prop where
+  servers : c.servers ≠ []
+  clients : checkClients [] (effectiveClients c) = .ok e.clients
+  groups : checkGroups ((effectiveClients c).map (·.name)) [] c.groups (tcpNamesOf (effectiveClients c)) (udpNamesOf (effectiveClients c)) =
+    .ok (e.tcpNames, e.udpNames)
+  resolvers : checkResolvers e.tcpNames e.udpNames [] c.resolvers = .ok ()
+  serverNames : checkUnique "dup-server" [] (c.servers.map (·.name)) = .ok ()
+  router : checkRouter c.router (c.resolvers.map (·.name)) e.tcpNames e.udpNames (c.servers.map (·.name)) = .ok ()
+  effServers : mapE checkServer c.servers = .ok e.servers
+
+theorem validate_ok {c : Config} {e : Eff} (h : validate c = .ok e) : Accepted c e := by
+  unfold validate at h
+  split at h
+  · cases h
+  · rename_i h0
+    simp only at h
+    split at h
+    · cases h
+    · rename_i ecs h1
+      split at h
+      · cases h
+      · rename_i tcp udp h2
+        split at h
+        · cases h
+        · rename_i h3
+          split at h
+          · cases h
+          · rename_i h4
+            split at h
+            · cases h
+            · rename_i h5
+              split at h
+              · cases h
+              · rename_i ess h6
+                cases h
+                refine ⟨?_, h1, h2, h3, h4, h5, h6⟩
+                intro hnil
+                rw [hnil] at h0
+                exact h0 rfl
+
+-- ---------------------------------------------------------------- accepted_sound
+
+/-- references of one route resolve (client per network, resolver, servers, sets) -/
+structure RouteInv (rt : Route) (c : Config) (e : Eff) : Prop where
+  tcpClient : rt.client ≠ "reject" → (rt.network = "" ∨ rt.network = "tcp") → rt.client ∈ e.tcpNames
+  udpClient : rt.client ≠ "reject" → (rt.network = "" ∨ rt.network = "udp") → rt.client ∈ e.udpNames
+  resolver : rt.resolver ≠ "" → rt.resolver ∈ c.resolvers.map (·.name)
+  servers : ∀ n ∈ rt.fromServers, n ∈ c.servers.map (·.name)
+  domainSets : ∀ n ∈ rt.toDomainSets, n ∈ c.router.domainSets
+  prefixSets : (∀ n ∈ rt.fromPrefixSets, n ∈ c.router.prefixSets) ∧ (∀ n ∈ rt.toPrefixSets, n ∈ c.router.prefixSets)
+
+theorem all_contains {l names : List String} (h : (!l.all names.contains) = false) : ∀ n ∈ l, n ∈ names := by
+  intro n hn
+  simp only [Bool.not_eq_false', List.all_eq_true] at h
+  simpa using h n hn
+
+theorem route_sound {rt : Route} {c : Config} {e : Eff}
+    (h : checkRoute rt (c.resolvers.map (·.name)) e.tcpNames e.udpNames (c.servers.map (·.name)) c.router.domainSets c.router.prefixSets = .ok ()) :
+    RouteInv rt c e := by
+  have ok := checkRoute_ok h
+  have k (p : Bool × String) (hp : p ∈ rt.checks (c.resolvers.map (·.name)) e.tcpNames e.udpNames (c.servers.map (·.name)) c.router.domainSets c.router.prefixSets) := ok p hp
+  refine ⟨?_, ?_, ?_, ?_, ?_, ?_, ?_⟩
+  · intro hc hn
+    have := k (rt.client ≠ "reject" && (rt.network = "" || rt.network = "tcp") && !e.tcpNames.contains rt.client, "route-tcp-notfound") (by simp [Route.checks])
+    have hn' : (decide (rt.network = "") || decide (rt.network = "tcp")) = true := by
+      rcases hn with hn | hn <;> simp [hn]
+    simp only [hn', Bool.and_true, ne_eq, hc, not_false_eq_true, decide_true, Bool.true_and, Bool.not_eq_false'] at this
+    simpa using this
+  · intro hc hn
+    have := k (rt.client ≠ "reject" && (rt.network = "" || rt.network = "udp") && !e.udpNames.contains rt.client, "route-udp-notfound") (by simp [Route.checks])
+    have hn' : (decide (rt.network = "") || decide (rt.network = "udp")) = true := by
+      rcases hn with hn | hn <;> simp [hn]
+    simp only [hn', Bool.and_true, ne_eq, hc, not_false_eq_true, decide_true, Bool.true_and, Bool.not_eq_false'] at this
+    simpa using this
+  · intro hr
+    have := k (rt.resolver ≠ "" && !(c.resolvers.map (·.name)).contains rt.resolver, "route-resolver-notfound") (by simp [Route.checks])
+    simp only [ne_eq, hr, not_false_eq_true, decide_true, Bool.true_and, Bool.not_eq_false'] at this
+    simpa using this
+  · exact all_contains (k (!rt.fromServers.all (c.servers.map (·.name)).contains, "route-server-notfound") (by simp [Route.checks]))
+  · exact all_contains (k (!rt.toDomainSets.all c.router.domainSets.contains, "route-domainset-notfound") (by simp [Route.checks]))
+  · exact all_contains (k (!rt.fromPrefixSets.all c.router.prefixSets.contains, "route-prefixset-notfound") (by simp [Route.checks]))
+  · exact all_contains (k (!rt.toPrefixSets.all c.router.prefixSets.contains, "route-prefixset-notfound") (by simp [Route.checks]))
+
+/-- **accepted_sound**: every configuration `Manager` accepts satisfies the invariants the statement names. -/
+theorem accepted_sound {c : Config} {e : Eff} (h : validate c = .ok e) :
+    -- per server: key lengths, MTU, ss2022 NAT timeout >= replay window, tuning ranges, listeners built
+    (∀ s ∈ c.servers, ∃ es ∈ e.servers, checkServer s = .ok es ∧ ServerInv s es) ∧
+    -- per client (the default client included): key lengths, MTU
+    (∀ k ∈ effectiveClients c, ClientInv k) ∧
+    -- names are unique
+    ((effectiveClients c).map (·.name)).Nodup ∧ (c.servers.map (·.name)).Nodup ∧ (c.resolvers.map (·.name)).Nodup ∧
+    c.router.domainSets.Nodup ∧ c.router.prefixSets.Nodup ∧
+    -- every referenced client, resolver, set and server exists
+    (∀ rt ∈ c.router.routes, RouteInv rt c e) ∧
+    (c.router.defaultTCP ≠ "" → c.router.defaultTCP ≠ "reject" → c.router.defaultTCP ∈ e.tcpNames) ∧
+    (c.router.defaultUDP ≠ "" → c.router.defaultUDP ≠ "reject" → c.router.defaultUDP ∈ e.udpNames) := by
+  have acc := validate_ok h
+  have ⟨cnd, _, call⟩ := checkClients_ok acc.clients
+  have ⟨rnd, _, _⟩ := checkResolvers_nodup acc.resolvers
+  have ⟨snd, _⟩ := checkUnique_nodup acc.serverNames
+  -- router
+  have hr := acc.router
+  unfold checkRouter at hr
+  split at hr
+  · cases hr
+  · rename_i r1
+    split at hr
+    · cases hr
+    · rename_i r2
+      split at hr
+      · cases hr
+      · rename_i r3
+        split at hr
+        · cases hr
+        · rename_i r4
+          have hds : c.router.domainSets.Nodup := by
+            unfold setNamesOK at r3
+            rw [gen_checks_present.2.1] at r3
+            exact (checkUnique_nodup r3).1
+          have hps : c.router.prefixSets.Nodup := by
+            unfold setNamesOK at r4
+            rw [gen_checks_present.2.2] at r4
+            exact (checkUnique_nodup r4).1
+          refine ⟨?_, ?_, cnd, snd, rnd, hds, hps, ?_, ?_, ?_⟩
+          · intro s hs
+            obtain ⟨es, hes, hc⟩ := mapE_ok_mem acc.effServers s hs
+            exact ⟨es, hes, hc, server_sound hc⟩
+          · intro k hk
+            obtain ⟨ek, _, hc⟩ := call k hk
+            exact client_sound hc
+          · intro rt hrt
+            exact route_sound (checkRoutes_ok hr rt hrt)
+          · intro h1 h2
+            simp only [defaultClientOK, Bool.not_eq_true', Bool.or_eq_false_iff, decide_eq_false_iff_not] at r1
+            have := r1
+            simp only [h2, h1, not_false_eq_true, true_and, Bool.not_eq_false] at this
+            simpa using this
+          · intro h1 h2
+            simp only [defaultClientOK, Bool.not_eq_true', Bool.or_eq_false_iff, decide_eq_false_iff_not] at r2
+            have := r2
+            simp only [h2, h1, not_false_eq_true, true_and, Bool.not_eq_false] at this
+            simpa using this
+
+/-- a non-trivial accepted configuration (ss2022 server with TCP and UDP, natTimeout exactly the replay window) -/
+def exServer : Server :=
+  { name := "s", proto := .ss128, pskLen := 16, mtu := 1500, tcpListeners := [{}],
+    udpListeners := [{ natTimeout := 60000000000 }] }
+
+/-- the error class of a result (`none`: accepted) -/
+def errorOf {α : Type} : R α → Option String
+  | .error e => some e
+  | .ok _ => none
+
+example : errorOf (validate { servers := [exServer] }) = none := by decide
+
+-- ---------------------------------------------------------------- violating_rejected
+
+theorem rejected_of_not_ok {c : Config} (h : ∀ e, validate c ≠ .ok e) : ∃ err, validate c = .error err := by
+  cases hv : validate c with
+  | error err => exact ⟨err, rfl⟩
+  | ok e => exact absurd hv (h e)
+
+/-- **violating_rejected**: a configuration that violates one of the named invariants is refused with an error. -/
+theorem violating_rejected {c : Config}
+    (bad :
+      -- a key (PSK, uPSK store) whose length does not match the method
+      (∃ s ∈ c.servers, s.proto.isSS = true ∧ (Doc.keyLen s.proto ≠ some s.pskLen ∨ s.upsk = .missing ∨ ∃ l, s.upsk = .keys l ∧ Doc.keyLen s.proto ≠ some l)) ∨
+      (∃ k ∈ effectiveClients c, k.proto.isSS = true ∧ (Doc.keyLen k.proto ≠ some k.pskLen ∨ ∃ n ∈ k.ipskLens, Doc.keyLen k.proto ≠ some n)) ∨
+      -- an ss2022 UDP listener (array or legacy) with an explicit NAT timeout below the replay window
+      (∃ s ∈ c.servers, s.proto.isSS = true ∧ ∃ l ∈ s.allUDP, l.natTimeout ≠ 0 ∧ l.natTimeout < Doc.replayWindow) ∨
+      -- UDP with an MTU below 1280
+      (∃ s ∈ c.servers, s.allUDP ≠ [] ∧ s.mtu < Doc.minMTU) ∨
+      (∃ k ∈ effectiveClients c, k.enableUDP = true ∧ k.mtu < Doc.minMTU) ∨
+      -- tuning knobs outside the documented ranges
+      (∃ s ∈ c.servers, ∃ l ∈ s.allUDP, l.relayBatch < 0 ∨ Doc.maxBatch < l.relayBatch ∨ l.recvBatch < 0 ∨ Doc.maxBatch < l.recvBatch ∨
+        (l.sendCap ≠ 0 ∧ l.sendCap < Doc.minCapacity)) ∨
+      -- duplicate names
+      ¬ ((effectiveClients c).map (·.name)).Nodup ∨ ¬ (c.servers.map (·.name)).Nodup ∨ ¬ (c.resolvers.map (·.name)).Nodup ∨
+      ¬ c.router.domainSets.Nodup ∨ ¬ c.router.prefixSets.Nodup ∨
+      -- dangling references
+      (∃ rt ∈ c.router.routes, (rt.resolver ≠ "" ∧ rt.resolver ∉ c.resolvers.map (·.name)) ∨ (∃ n ∈ rt.fromServers, n ∉ c.servers.map (·.name)) ∨
+        (∃ n ∈ rt.toDomainSets, n ∉ c.router.domainSets) ∨ (∃ n ∈ rt.fromPrefixSets, n ∉ c.router.prefixSets) ∨ (∃ n ∈ rt.toPrefixSets, n ∉ c.router.prefixSets))) :
+    ∃ err, validate c = .error err := by
+  apply rejected_of_not_ok
+  intro e h
+  have ⟨hs, hk, n1, n2, n3, n4, n5, hrt, _, _⟩ := accepted_sound h
+  rcases bad with ⟨s, hs', hss, hb⟩ | ⟨k, hk', hss, hb⟩ | ⟨s, hs', hss, l, hl, hnz, hlt⟩ | ⟨s, hs', hne, hlt⟩ | ⟨k, hk', hu, hlt⟩ |
+      ⟨s, hs', l, hl, hb⟩ | hb | hb | hb | hb | hb | ⟨rt, hrt', hb⟩
+  · obtain ⟨es, _, _, inv⟩ := hs s hs'
+    rcases hb with hb | hb | ⟨l, hl, hb⟩
+    · exact hb (inv.psk hss)
+    · exact (inv.upsk hss).1 hb
+    · exact hb ((inv.upsk hss).2 l hl)
+  · have inv := hk k hk'
+    rcases hb with hb | ⟨n, hn, hb⟩
+    · exact hb (inv.psk hss).1
+    · exact hb ((inv.psk hss).2 n hn)
+  · obtain ⟨es, _, hc, inv⟩ := hs s hs'
+    have ok := checkServer_ok hc
+    obtain ⟨u, hu, hlu⟩ := mapE_ok_mem ok.udp l hl
+    have hnat := inv.nat hss u hu
+    rcases (checkUL_ok hlu).nat with ⟨hz, _⟩ | ⟨_, _, heq⟩
+    · exact hnz hz
+    · rw [heq] at hnat
+      omega
+  · obtain ⟨es, _, _, inv⟩ := hs s hs'
+    have := inv.mtu hne
+    omega
+  · have := (hk k hk').mtu hu
+    omega
+  · obtain ⟨es, _, hc, inv⟩ := hs s hs'
+    have ok := checkServer_ok hc
+    obtain ⟨u, hu, hlu⟩ := mapE_ok_mem ok.udp l hl
+    have ulok := checkUL_ok hlu
+    have p := inv.perf u hu
+    obtain ⟨g1, g2, g3, _, _, _⟩ := gen_perf
+    rcases hb with hb | hb | hb | hb | ⟨hb1, hb2⟩
+    · rcases rangeDefault_some ulok.relay with ⟨a, _, _⟩ | ⟨a, _⟩ <;> omega
+    · rcases rangeDefault_some ulok.relay with ⟨_, a, _⟩ | ⟨a, _⟩
+      · rw [g1] at a; omega
+      · have : (0 : Int) ≤ Doc.maxBatch := by decide
+        omega
+    · rcases rangeDefault_some ulok.recv with ⟨a, _, _⟩ | ⟨a, _⟩ <;> omega
+    · rcases rangeDefault_some ulok.recv with ⟨_, a, _⟩ | ⟨a, _⟩
+      · rw [g2] at a; omega
+      · have : (0 : Int) ≤ Doc.maxBatch := by decide
+        omega
+    · rcases capDefault_some ulok.cap with ⟨a, _⟩ | ⟨a, _⟩
+      · rw [g3] at a; omega
+      · exact hb1 a
+  · exact hb n1
+  · exact hb n2
+  · exact hb n3
+  · exact hb n4
+  · exact hb n5
+  · have inv := hrt rt hrt'
+    rcases hb with ⟨h1, h2⟩ | ⟨n, hn, h2⟩ | ⟨n, hn, h2⟩ | ⟨n, hn, h2⟩ | ⟨n, hn, h2⟩
+    · exact h2 (inv.resolver h1)
+    · exact h2 (inv.servers n hn)
+    · exact h2 (inv.domainSets n hn)
+    · exact h2 (inv.prefixSets.1 n hn)
+    · exact h2 (inv.prefixSets.2 n hn)
+
+/-- the hypotheses of `violating_rejected` are satisfiable: an ss2022 UDP listener with natTimeout 59 s -/
+example : errorOf (validate { servers := [{ exServer with udpListeners := [{ natTimeout := 59000000000 }] }] }) = some "nat-timeout" := by
+  decide
+
+-- ---------------------------------------------------------------- legacy_equiv
+
+/-- **legacy_equiv**: a configuration written with the legacy single-listener fields (`enableTCP`, `enableUDP`,
+    `natTimeoutSec`, `udp*BatchSize`, ...) is decided exactly like the listener arrays `Config.Migrate` produces:
+    same acceptance, same error class, same effective services. -/
+theorem legacy_equiv (c : Config) : validate c.migrate = validate c :=
+  validate_congr_servers c Server.migrate (fun _ => rfl) (fun s _ => checkServer_migrate s)
+
+/-- non-trivial instance: legacy UDP with natTimeoutSec 59 on an ss2022 server is refused both ways -/
+example : errorOf (validate { servers := [{ exServer with udpListeners := [], enableUDP := true, natTimeoutSec := 59 }] }) = some "nat-timeout" ∧
+    errorOf (validate (Config.migrate { servers := [{ exServer with udpListeners := [], enableUDP := true, natTimeoutSec := 59 }] })) = some "nat-timeout" :=
+  ⟨by decide, by decide⟩
+
+-- ---------------------------------------------------------------- defaults
+
+/-- write the documented default where a policy is omitted or "" -/
+def normPolicy (d : String) : Option String → Option String
+  | none => some d
+  | some s => if s = "" then some d else some s
+
+/-- a UDP listener with every omitted (zero) value replaced by the documented default -/
+def explicitUL (l : UL) : UL :=
+  { l with natTimeout := if l.natTimeout = 0 then Doc.natTimeout else l.natTimeout,
+           relayBatch := if l.relayBatch = 0 then Doc.relayBatch else l.relayBatch,
+           recvBatch := if l.recvBatch = 0 then Doc.recvBatch else l.recvBatch,
+           sendCap := if l.sendCap = 0 then Doc.sendCapacity else l.sendCap }
+
+/-- a server with every omitted / empty policy, filter size and listener value written out as documented -/
+def explicitServer (s : Server) : Server :=
+  { s with reject := normPolicy Doc.rejectPolicy s.reject, padding := normPolicy Doc.paddingPolicy s.padding,
+           filterSize := if s.filterSize = 0 then Doc.filterSize else s.filterSize,
+           udpListeners := s.udpListeners.map explicitUL }
+
+/-- a client with omitted network / padding policy / filter size written out as documented -/
+def explicitClient (k : Client) : Client :=
+  { k with network := if k.network = "" then "ip" else k.network,
+           padding := normPolicy Doc.paddingPolicy k.padding,
+           filterSize := if k.filterSize = 0 then Doc.filterSize else k.filterSize }
+
+theorem rejectOf_norm (r : Option String) : rejectOf (normPolicy Doc.rejectPolicy r) = rejectOf r := by
+  cases r with
+  | none => decide
+  | some s =>
+    by_cases hs : s = ""
+    · subst hs; decide
+    · simp [normPolicy, hs]
+
+theorem paddingOf_norm (r : Option String) : paddingOf (normPolicy Doc.paddingPolicy r) = paddingOf r := by
+  cases r with
+  | none => decide
+  | some s =>
+    by_cases hs : s = ""
+    · subst hs; decide
+    · simp [normPolicy, hs]
+
+theorem relay_explicit (x : Int) :
+    rangeDefault (if x = 0 then Doc.relayBatch else x) C18.relayBatchMax C18.relayBatchDefault =
+    rangeDefault x C18.relayBatchMax C18.relayBatchDefault := by
+  by_cases hx : x = 0
+  · subst hx; decide
+  · rw [if_neg hx]
+
+theorem recv_explicit (x : Int) :
+    rangeDefault (if x = 0 then Doc.recvBatch else x) C18.recvBatchMax C18.recvBatchDefault =
+    rangeDefault x C18.recvBatchMax C18.recvBatchDefault := by
+  by_cases hx : x = 0
+  · subst hx; decide
+  · rw [if_neg hx]
+
+theorem cap_explicit (x : Int) : capDefault (if x = 0 then Doc.sendCapacity else x) = capDefault x := by
+  by_cases hx : x = 0
+  · subst hx; decide
+  · rw [if_neg hx]
+
+theorem nat_explicit {minNat : Int} (hm : minNat ≤ Doc.replayWindow) (x : Int) :
+    natEff minNat (if x = 0 then Doc.natTimeout else x) = natEff minNat x := by
+  by_cases hx : x = 0
+  · subst hx
+    have hnz : Doc.natTimeout ≠ 0 := by decide
+    have hbig : Doc.replayWindow < Doc.natTimeout := by decide
+    unfold natEff natTooSmall
+    rw [if_pos rfl, if_pos rfl, if_neg hnz, gen_nat.2.2]
+    have : ¬ Doc.natTimeout < minNat := by omega
+    simp only [Bool.false_eq_true, if_false, this, decide_false]
+    rw [gen_nat.2.1]
+  · rw [if_neg hx]
+
+theorem checkUL_explicit {minNat : Int} (hm : minNat ≤ Doc.replayWindow) (l : UL) :
+    checkUL minNat (explicitUL l) = checkUL minNat l := by
+  unfold checkUL
+  simp only [explicitUL, relay_explicit, recv_explicit, cap_explicit, nat_explicit hm]
+  first | done | rfl
+
+theorem minNat_le (p : Proto) : minNatOf p ≤ Doc.replayWindow := by
+  unfold minNatOf
+  split
+  · rw [gen_nat.1]; exact Int.le_refl _
+  · decide
+
+theorem filterOK_explicit (max : Option Nat) (hmax : ∀ m, max = some m → Doc.filterSize ≤ m) (n : Nat) :
+    filterSizeOK max (if n = 0 then Doc.filterSize else n) = filterSizeOK max n := by
+  by_cases hn : n = 0
+  · subst hn
+    rw [if_pos rfl]
+    cases max with
+    | none => rfl
+    | some m =>
+      have := hmax m rfl
+      simp [filterSizeOK, this]
+  · rw [if_neg hn]
+
+theorem effFilter_explicit (n : Nat) : effFilterSize (if n = 0 then Doc.filterSize else n) = effFilterSize n := by
+  by_cases hn : n = 0
+  · subst hn; decide
+  · rw [if_neg hn]
+
+/-- omitted ≡ "" ≡ documented default, for one server written with listener arrays -/
+theorem checkServer_explicit (s : Server) (hu : s.enableUDP = false) : checkServer (explicitServer s) = checkServer s := by
+  have hT : (explicitServer s).allTCP = s.allTCP := rfl
+  have hU : (explicitServer s).allUDP = s.udpListeners.map explicitUL := by
+    simp [Server.allUDP, explicitServer, hu]
+  have hU0 : s.allUDP = s.udpListeners := by simp [Server.allUDP, hu]
+  have hmap : mapE (checkUL (minNatOf s.proto)) (s.udpListeners.map explicitUL) = mapE (checkUL (minNatOf s.proto)) s.udpListeners := by
+    rw [mapE_map]
+    exact mapE_congr (fun l _ => checkUL_explicit (minNat_le s.proto) l)
+  have hemp := isEmpty_map explicitUL s.udpListeners
+  have hf := filterOK_explicit C18.serverFilterSizeMax (by intro m hm; cases hm; decide) s.filterSize
+  have he := effFilter_explicit s.filterSize
+  unfold checkServer Server.initChecks Server.udpChecks Server.eff
+  rw [hT, hU, hU0]
+  simp only [explicitServer, hmap, hemp, hf, he, rejectOf_norm, paddingOf_norm]
+  first | done | rfl
+
+/-- omitted ≡ "" ≡ documented default, for one client -/
+theorem checkClient_explicit (k : Client) : checkClient (explicitClient k) = checkClient k := by
+  have hf := filterOK_explicit C18.clientFilterSizeMax (by intro m hm; cases hm; decide) k.filterSize
+  have he := effFilter_explicit k.filterSize
+  have hn : networkOK (if k.network = "" then "ip" else k.network) = networkOK k.network := by
+    by_cases h : k.network = ""
+    · rw [if_pos h, h]; decide
+    · rw [if_neg h]
+  have hn2 : (if (if k.network = "" then "ip" else k.network) = "" then "ip" else (if k.network = "" then "ip" else k.network)) =
+      (if k.network = "" then "ip" else k.network) := by
+    by_cases h : k.network = ""
+    · rw [if_pos h]; decide
+    · rw [if_neg h, if_neg h]
+  unfold checkClient Client.checks Client.eff Client.addressesOK
+  simp only [explicitClient, hf, he, hn, paddingOf_norm]
+  first
+    | done
+    | (rw [hn2]; first | done | rfl)
+    | (by_cases h : k.network = "" <;> simp [h] <;> rfl)
+
+/-- **defaults** (configuration level): after `Config.Migrate`, writing out every omitted / "" policy, every zero
+    NAT timeout, batch size, channel capacity and filter size of every server as the DOCUMENTED default
+    (README / field comments, `Doc`) changes nothing: same acceptance, same error, same effective services. -/
+theorem defaults (c : Config) :
+    validate { c.migrate with servers := c.migrate.servers.map explicitServer } = validate c := by
+  rw [← legacy_equiv c]
+  apply validate_congr_servers c.migrate explicitServer (fun _ => rfl)
+  intro s hs
+  apply checkServer_explicit
+  simp only [Config.migrate, List.mem_map] at hs
+  obtain ⟨t, _, ht⟩ := hs
+  rw [← ht]
+  rfl
+
+/-- what `exServer` (reject / padding policy and filter size omitted) becomes -/
+def exEff : EffServer :=
+  { name := "s", proto := .ss128, tcp := 1,
+    udp := [{ batchMode := "", relayBatch := Doc.relayBatch, recvBatch := Doc.recvBatch, sendCap := Doc.sendCapacity,
+              natTimeout := 60000000000 }],
+    reject := some Doc.rejectPolicy, padding := some Doc.paddingPolicy, filterSize := some Doc.filterSize }
+
+/-- the three spellings of the reject policy of `exServer` (omitted, "", "ForceReset") give the same services -/
+example : checkServer exServer = checkServer { exServer with reject := some "" } ∧
+    checkServer exServer = checkServer { exServer with reject := some "ForceReset" } ∧
+    checkServer exServer = .ok exEff :=
+  ⟨rfl, rfl, rfl⟩
+
+-- ---------------------------------------------------------------- no_crash_configs
+
+theorem two63 : 2 ^ 63 = 9223372036854775808 := by decide
+
+theorem effFilter_bound {max : Option Nat} {m n : Nat} (hmax : max = some m) (hm : m + 63 < 2 ^ 63)
+    (h : filterSizeOK max n = true) : 1 ≤ effFilterSize n ∧ effFilterSize n + 63 < 2 ^ 63 := by
+  subst hmax
+  simp only [filterSizeOK, decide_eq_true_eq] at h
+  rw [two63] at hm ⊢
   unfold effFilterSize
   split
-  · decide
+  · rw [gen_filter_default]; decide
   · omega
+
+/-- the preconditions under which the packet paths are proved panic-free (C04: `1 ≤ size`, `size+63 < 2^63`;
+    C06/F4: the direct server's reply path calls `IPPort()` on the tunnel address when target-only is set) -/
+structure NoCrashServer (s : Server) : Prop where
+  targetOnly : s.proto = .direct → s.allUDP ≠ [] → s.targetOnly = true → s.tunnel = .ip
+  filter : s.proto.isSS = true → 1 ≤ effFilterSize s.filterSize ∧ effFilterSize s.filterSize + 63 < 2 ^ 63
+
+theorem no_crash_server {s : Server} {e : EffServer} (h : checkServer s = .ok e) : NoCrashServer s := by
+  have ok := checkServer_ok h
+  have i4 := ok.init (s.proto.isSS && !filterSizeOK C18.serverFilterSizeMax s.filterSize, "server-filter-size") (by simp [Server.initChecks])
+  have u2 := ok.udpc (!s.allUDP.isEmpty && s.proto = .direct && C18.directTargetOnlyRequiresIP && s.targetOnly && s.tunnel ≠ .ip, "server-targetonly")
+    (by simp [Server.udpChecks])
+  refine ⟨?_, ?_⟩
+  · intro hd hne ht
+    have hemp : s.allUDP.isEmpty = false := by
+      cases hl : s.allUDP with
+      | nil => exact absurd hl hne
+      | cons a as => rfl
+    rw [gen_checks_present.1] at u2
+    simpa [hemp, hd, ht] using u2
+  · intro hs
+    obtain ⟨⟨m, hm, hb⟩, _⟩ := gen_filter_bound
+    simp only [hs, Bool.true_and, Bool.not_eq_false'] at i4
+    exact effFilter_bound hm hb i4
+
+/-- **no_crash_configs**: every accepted combination satisfies the preconditions of the no-panic theorems. -/
+theorem no_crash_configs {c : Config} {e : Eff} (h : validate c = .ok e) :
+    (∀ s ∈ c.servers, NoCrashServer s) ∧
+    (∀ k ∈ effectiveClients c, k.proto.isSS = true → 1 ≤ effFilterSize k.filterSize ∧ effFilterSize k.filterSize + 63 < 2 ^ 63) := by
+  have acc := validate_ok h
+  refine ⟨?_, ?_⟩
+  · intro s hs
+    obtain ⟨es, _, hc⟩ := mapE_ok_mem acc.effServers s hs
+    exact no_crash_server hc
+  · intro k hk hss
+    have ⟨_, _, call⟩ := checkClients_ok acc.clients
+    obtain ⟨ek, _, hc⟩ := call k hk
+    have ⟨ok, _⟩ := checkClient_ok hc
+    have i := ok (k.proto.isSS && !filterSizeOK C18.clientFilterSizeMax k.filterSize, "client-filter-size") (by simp [Client.checks])
+    obtain ⟨_, ⟨m, hm, hb⟩⟩ := gen_filter_bound
+    simp only [hss, Bool.true_and, Bool.not_eq_false'] at i
+    exact effFilter_bound hm hb i
+
+/-- F4 / F15 witnesses are refused: target-only with a domain; the filter sizes 2^64-1 and 2^64-64 -/
+example : errorOf (validate { servers := [{ name := "d", proto := .direct, tunnel := .domain, targetOnly := true, mtu := 1500, udpListeners := [{}] }] }) = some "server-targetonly" ∧
+    errorOf (validate { servers := [{ exServer with filterSize := 18446744073709551615 }] }) = some "server-filter-size" ∧
+    errorOf (validate { servers := [{ exServer with filterSize := 18446744073709551552 }] }) = some "server-filter-size" :=
+  ⟨by decide, by decide, by decide⟩
 
 end SSV.C18
 
-#print axioms SSV.C18.effFilterSize_pos
+#print axioms SSV.C18.gen_pskLen
+#print axioms SSV.C18.gen_mtu
+#print axioms SSV.C18.gen_nat
+#print axioms SSV.C18.gen_perf
+#print axioms SSV.C18.gen_policy_defaults
+#print axioms SSV.C18.gen_filter_default
+#print axioms SSV.C18.gen_filter_bound
+#print axioms SSV.C18.gen_checks_present
+#print axioms SSV.C18.ul_sound
+#print axioms SSV.C18.isSS_minNat
+#print axioms SSV.C18.pskOK_keyLen
+#print axioms SSV.C18.server_sound
+#print axioms SSV.C18.client_sound
+#print axioms SSV.C18.validate_ok
+#print axioms SSV.C18.all_contains
+#print axioms SSV.C18.route_sound
+#print axioms SSV.C18.accepted_sound
+#print axioms SSV.C18.rejected_of_not_ok
+#print axioms SSV.C18.violating_rejected
+#print axioms SSV.C18.legacy_equiv
+#print axioms SSV.C18.rejectOf_norm
+#print axioms SSV.C18.paddingOf_norm
+#print axioms SSV.C18.relay_explicit
+#print axioms SSV.C18.recv_explicit
+#print axioms SSV.C18.cap_explicit
+#print axioms SSV.C18.nat_explicit
+#print axioms SSV.C18.checkUL_explicit
+#print axioms SSV.C18.minNat_le
+#print axioms SSV.C18.filterOK_explicit
+#print axioms SSV.C18.effFilter_explicit
+#print axioms SSV.C18.checkServer_explicit
+#print axioms SSV.C18.checkClient_explicit
+#print axioms SSV.C18.defaults
+#print axioms SSV.C18.two63
+#print axioms SSV.C18.effFilter_bound
+#print axioms SSV.C18.no_crash_server
+#print axioms SSV.C18.no_crash_configs
